@@ -11,7 +11,9 @@ type discardW struct{ n int }
 func (w *discardW) Write(p []byte) (int, error) { w.n += len(p); return len(p), nil }
 
 // checkCreate runs the three entry points on input s and checks the contract.
-func checkCreate(s string, what string) bool {
+func checkCreate(s string, what string) bool { return checkCreateF(s, what, true) }
+
+func checkCreateF(s string, what string, withFilter bool) bool {
 	ast, perr := grammar.Parse("", []byte(s))
 	ev, cerr := CreateEvaluator(s)
 	vAssert((ev == nil) != (cerr == nil), what+": CreateEvaluator returns an evaluator xor an error")
@@ -20,13 +22,19 @@ func checkCreate(s string, what string) bool {
 		_, isExpr := ast.(grammar.Expression)
 		vAssert(ast != nil && isExpr, what+": accepted input yields a non-nil Expression")
 	}
-	f, ferr := CreateFilter(s)
-	if s == "" {
-		vAssert(f == nil && ferr == nil, "empty input: the documented nil filter")
-	} else {
-		vAssert((f == nil) != (ferr == nil), what+": CreateFilter returns a filter xor an error")
-		vAssert((ferr == nil) == (cerr == nil), what+": CreateFilter accepts exactly what CreateEvaluator accepts")
+	if !withFilter {
+		goto evaluated
 	}
+	{
+		f, ferr := CreateFilter(s)
+		if s == "" {
+			vAssert(f == nil && ferr == nil, "empty input: the documented nil filter")
+		} else {
+			vAssert((f == nil) != (ferr == nil), what+": CreateFilter returns a filter xor an error")
+			vAssert((ferr == nil) == (cerr == nil), what+": CreateFilter accepts exactly what CreateEvaluator accepts")
+		}
+	}
+evaluated:
 	if cerr == nil {
 		// a returned evaluator can always be evaluated, and its tree dumped
 		o1, _, _ := evalO(ev, nil)
@@ -46,7 +54,7 @@ func H_C10_symbolic() {
 	if vTier() > 0 {
 		n = 4
 	}
-	checkCreate(vString(n), "symbolic input")
+	checkCreateF(vString(n), "symbolic input", vTier() > 0)
 	vCover("reached")
 }
 
